@@ -2107,6 +2107,13 @@ class Interp:
     hid = self.policy.handlers.get(id(fn))
     if hid is not None:
       return hid(self, args, kwargs, frame)
+    if isinstance(fn, z3.FuncDeclRef):
+      # an uninterpreted function used in a specification clause
+      zs = [self.to_z3(a) for a in args]
+      if any(z is None for z in zs):
+        raise Unsupported(f'uninterpreted function {fn.name()} applied to a non-scalar')
+      r = fn(*zs)
+      return SBool(r) if z3.is_bool(r) else (SInt(r) if z3.is_int(r) else SReal(r))
     if fn in specmod.SPEC_HELPERS:
       return axioms.spec_helper(self, fn, args, kwargs, frame)
     ufn = frontend.unwrap(fn) if not isinstance(fn, type) else fn
